@@ -29,7 +29,10 @@ def dag(w):
         Inst("ln", leaf, {"bb": NC(5), "g": Sig("t")})])
     topb = Mod("TopB", ports=[("s", w), ("t", 1)], buns=[("pb", B, True)], insts=[
         Inst("m0", mid, {"a": Sig("s"), "g": Sig("t"), "mb": Bun("pb")}),
-        Inst("m1", mid, {"a": Sig("s"), "g": PRef("m0", "g"), "mb": Bun("pb")})])
+        Inst("m1", mid, {"a": Sig("s"), "g": PRef("m0", "g"), "mb": Bun("pb")}),
+        # two leaves joined by a port reference only: the bundle behind `la.bb` is implicit
+        Inst("la", leaf, {"bb": Open, "g": Sig("t")}),
+        Inst("lb", leaf, {"bb": PRef("la", "bb"), "g": Sig("t")})])
     return [leaf, mid, topa, topb]
 
 
